@@ -301,6 +301,82 @@ impl<W: WorldSpec> Engine<W> {
         }
     }
 
+    /// `dst.clone_from(&src)`: an existing world (a replica, or an unrelated one) is overwritten by
+    /// a clone of the current world. Afterwards dst must answer exactly like src (C13), every value
+    /// dst held before must have been dropped exactly once and every live value of src cloned
+    /// exactly once (C04).
+    pub fn op_clone_from(&mut self, n: u8) {
+        if !self.cur_alive() {
+            return;
+        }
+        let src = self.cur;
+        let targets: Vec<usize> = self.alive_worlds().into_iter().filter(|w| *w != src).collect();
+        if targets.is_empty() {
+            return;
+        }
+        let dst = targets[n as usize % targets.len()];
+        let old_cells: Vec<(u8, u32)> = self.ms[dst].ents.values().flat_map(|r| r.cols.iter().map(|c| (c.kind, c.id))).filter(|(k, _)| kind_has_id(*k)).collect();
+        rt::arm(None, None, None, true);
+        let mut d = self.ws[dst].take().unwrap();
+        let res = {
+            let s = self.ws[src].as_ref().unwrap();
+            catch(|| d.clone_from(s))
+        };
+        self.ws[dst] = Some(d);
+        let clone_log = rt::with(|r| std::mem::take(&mut r.clone_log));
+        rt::disarm();
+        rt::h(&[0xC1F0, dst as u64, clone_log.len() as u64]);
+        if let Err(c) = res {
+            vio("C10", "unexpected-panic", format!("World::clone_from panicked: {}", c.msg));
+            return;
+        }
+        for (k, id) in &old_cells {
+            if rt::state(*k, *id) != VState::Dropped {
+                vio("C04", "leak-on-clone-from", format!("clone_from: value kind={} id={} of the overwritten world was not dropped", k, id));
+                return;
+            }
+        }
+        let mut by_src: BTreeMap<(u8, u32), u32> = BTreeMap::new();
+        for (k, s, nn) in &clone_log {
+            if kind_has_id(*k) && by_src.insert((*k, *s), *nn).is_some() {
+                vio("C04", "cloned-twice", format!("clone_from(): value kind={} id={} was cloned twice", k, s));
+                return;
+            }
+        }
+        let mut m2 = self.ms[src].clone();
+        for r in m2.ents.values_mut() {
+            for c in r.cols.iter_mut() {
+                if kind_has_id(c.kind) {
+                    match by_src.remove(&(c.kind, c.id)) {
+                        Some(nn) => c.id = nn,
+                        None => {
+                            vio("C04", "live-value-not-cloned", format!("clone_from(): live value kind={} id={} was not cloned", c.kind, c.id));
+                            return;
+                        }
+                    }
+                }
+            }
+        }
+        if !by_src.is_empty() {
+            vio("C04", "cloned-non-live-value", format!("clone_from(): cloned values that are not live cells: {:?}", by_src));
+            return;
+        }
+        self.ms[dst] = m2;
+        self.dm_cache.clear();
+        // dst leaves its old lineage and joins src's
+        for e in self.book.iter_mut() {
+            e.natives.retain(|nv| nv.world != dst);
+            if let Some(nv) = e.native_in(src) {
+                e.natives.push(Native { world: dst, ..nv });
+            }
+        }
+        self.stats.inc("clone_from");
+        let save = self.cur;
+        self.cur = dst;
+        self.audit_step(true);
+        self.cur = save;
+    }
+
     pub fn op_switch(&mut self, n: u8) {
         let alive = self.alive_worlds();
         if alive.len() > 1 {
@@ -705,6 +781,7 @@ impl<W: WorldSpec> Engine<W> {
             Op::Bulk { a, n, p } => self.op_bulk(*a, *n, *p),
             Op::BulkDestroy { a, stride, phase } => self.op_bulk_destroy(*a, *stride, *phase),
             Op::Spawn { c } => self.op_spawn(*c),
+            Op::CloneFrom { n } => self.op_clone_from(*n),
         }
     }
 
